@@ -30,6 +30,18 @@ class BytesWord(CountingWord):
         return cls(p, pats, alph, jp)
 
 
+class MixedWord(BytesWord):
+    """Some instances can be serialised, others cannot (to_bytes raises
+    NotImplementedError for them): ClassDB falls back per call."""
+
+    calls = 0
+
+    def to_bytes(self):
+        if len(self.prefix) % 2 == 1 or self.just_prefix:
+            raise NotImplementedError
+        return super().to_bytes()
+
+
 POOL_SPEC = [
     ("", ["ab"], "ab", False),
     ("a", ["ab"], "ab", False),
